@@ -445,4 +445,22 @@ theorem listAppend_exact_cap (F : Facts) (arr off len : Nat) (ys : List Val) (st
     have := (elems_run h1).1; subst this
     exact mkList_ext h
 
+/-- `append(slices.Clip(l), ys...)` never writes either: the same list, or a fresh array -/
+theorem listAppendClipFirst_ext (arr off len : Nat) (ys : List Val) (st st' : St) (v : Val)
+    (h : (listAppendClipFirst arr off len ys).run st = .ok (v, st')) : Ext st st' := by
+  unfold listAppendClipFirst at h
+  by_cases he : ys.isEmpty = true
+  · simp only [he, if_true] at h; rw [run_pure_ok] at h; cases h; exact Ext.refl _
+  · simp only [he, Bool.false_eq_true, if_false] at h
+    rw [run_bind_ok] at h; obtain ⟨xs, s1, h1, h⟩ := h
+    have := (elems_run h1).1; subst this
+    cases hg : goGrowCap len (len + ys.length) with
+    | none => simp only [hg] at h; exact absurd h (fail_run _ _ _)
+    | some c =>
+      simp only [hg] at h
+      rw [run_bind_ok] at h; obtain ⟨a, s2, h2, h⟩ := h
+      obtain ⟨_, hs⟩ := allocArr_run h2
+      rw [run_pure_ok] at h; cases h
+      exact ⟨⟨[_], by rw [hs]⟩, ⟨[], by rw [hs]; simp⟩⟩
+
 end PlzVerif.Asp
